@@ -272,3 +272,251 @@ func ruleStdioJoin(c *Ctx) {
 		}
 	}
 }
+
+// ---------- R-GUARD/captured: a local written by a goroutine is not touched concurrently ----------
+
+// ruleCapturedWrite: a variable of the enclosing function that a `go func`
+// literal assigns is shared between that goroutine and whoever runs the
+// enclosing function. After the go statement the enclosing function (and the
+// other literals it creates from there on) may touch the variable only behind
+// a join with the goroutine - a receive from (or range over) a channel the
+// goroutine closes or sends on, or Wait on a WaitGroup the goroutine calls
+// Done on - or with a mutex held that the goroutine also holds at its write.
+// A go statement that can reach itself (a loop) shares the variable between
+// the goroutines it starts.
+func ruleCapturedWrite(c *Ctx) {
+	p := c.P
+	n, nGo := 0, 0
+	for _, f := range p.Funcs {
+		if strings.HasSuffix(p.Fset.Position(f.Body.Pos()).Filename, "testing.go") {
+			continue
+		}
+		info := f.Pkg.TypesInfo
+		var gos []*ast.GoStmt
+		walkNoLit(f.Body, func(x ast.Node) bool {
+			if gs, ok := x.(*ast.GoStmt); ok {
+				if _, isLit := ast.Unparen(gs.Call.Fun).(*ast.FuncLit); isLit {
+					gos = append(gos, gs)
+				}
+			}
+			return true
+		})
+		if len(gos) == 0 {
+			continue
+		}
+		g := p.Graph(f)
+		for _, gs := range gos {
+			nGo++
+			lit := ast.Unparen(gs.Call.Fun).(*ast.FuncLit)
+			lf := p.Lit(lit)
+			goNode := g.NodeOf(gs)
+			if lf == nil || goNode == nil {
+				continue
+			}
+			outer := func(v *types.Var) bool {
+				return v != nil && !v.IsField() && v.Pkg() != nil && v.Parent() != v.Pkg().Scope() &&
+					(v.Pos() < lit.Pos() || v.Pos() > lit.End()) && v.Pos() >= f.Body.Pos()-2000 && f.Node().Pos() <= v.Pos() && v.Pos() <= f.Node().End()
+			}
+			// variables of f assigned inside the literal (nested literals included)
+			written := map[*types.Var]ast.Node{}
+			ast.Inspect(lit.Body, func(x ast.Node) bool {
+				switch s := x.(type) {
+				case *ast.AssignStmt:
+					if s.Tok == token.DEFINE {
+						// only the re-used names of a := are assignments
+						for _, l := range s.Lhs {
+							if id, ok := l.(*ast.Ident); ok && info.Defs[id] == nil {
+								if v, ok := info.Uses[id].(*types.Var); ok && outer(v) {
+									written[v] = s
+								}
+							}
+						}
+						return true
+					}
+					for _, l := range s.Lhs {
+						if id, ok := ast.Unparen(l).(*ast.Ident); ok {
+							if v, ok := info.Uses[id].(*types.Var); ok && outer(v) {
+								written[v] = s
+							}
+						}
+					}
+				case *ast.IncDecStmt:
+					if id, ok := ast.Unparen(s.X).(*ast.Ident); ok {
+						if v, ok := info.Uses[id].(*types.Var); ok && outer(v) {
+							written[v] = s
+						}
+					}
+				}
+				return true
+			})
+			if len(written) == 0 {
+				continue
+			}
+			// what the goroutine signals on
+			sig := map[types.Object]bool{}
+			objOf := func(e ast.Expr) types.Object {
+				e = ast.Unparen(e)
+				if fv := SelField(info, e); fv != nil {
+					return fv
+				}
+				return identObj(info, e)
+			}
+			ast.Inspect(lit.Body, func(x ast.Node) bool {
+				switch s := x.(type) {
+				case *ast.SendStmt:
+					if o := objOf(s.Chan); o != nil {
+						sig[o] = true
+					}
+				case *ast.CallExpr:
+					if id, ok := ast.Unparen(s.Fun).(*ast.Ident); ok && id.Name == "close" && len(s.Args) == 1 {
+						if _, isB := info.Uses[id].(*types.Builtin); isB {
+							if o := objOf(s.Args[0]); o != nil {
+								sig[o] = true
+							}
+						}
+					}
+					if se, ok := ast.Unparen(s.Fun).(*ast.SelectorExpr); ok && se.Sel.Name == "Done" && strings.HasSuffix(p.CalleeName(lf, s), "WaitGroup.Done") {
+						if o := objOf(se.X); o != nil {
+							sig[o] = true
+						}
+					}
+				}
+				return true
+			})
+			isJoin := func(m *Node) bool {
+				if m.Ast == nil || m == goNode {
+					return false
+				}
+				join := false
+				walkNoLit(m.Ast, func(x ast.Node) bool {
+					switch s := x.(type) {
+					case *ast.UnaryExpr:
+						if s.Op == token.ARROW {
+							if o := objOf(s.X); o != nil && sig[o] {
+								join = true
+							}
+						}
+					case *ast.CallExpr:
+						if se, ok := ast.Unparen(s.Fun).(*ast.SelectorExpr); ok && se.Sel.Name == "Wait" && strings.HasSuffix(p.CalleeName(f, s), "WaitGroup.Wait") {
+							if o := objOf(se.X); o != nil && sig[o] {
+								join = true
+							}
+						}
+					}
+					return true
+				})
+				if rs, ok := m.Ast.(*ast.RangeStmt); ok {
+					if o := objOf(rs.X); o != nil && sig[o] {
+						join = true
+					}
+				}
+				return join
+			}
+			after := g.ReachAfter(goNode, isJoin, nil)
+			_, loops := after[goNode]
+			var vars []*types.Var
+			for v := range written {
+				vars = append(vars, v)
+			}
+			sort.Slice(vars, func(i, j int) bool { return vars[i].Pos() < vars[j].Pos() })
+			for _, v := range vars {
+				n++
+				construct := fmt.Sprintf("%s assigned by the goroutine started at %s", v.Name(), p.Pos(gs))
+				wNode := p.Graph(lf).NodeOf(written[v])
+				var wHeld lockSet
+				if wNode != nil && p.EnclosingFunc(written[v]) == lf {
+					wHeld = p.MustHeldAt(lf, wNode)
+				}
+				var clash ast.Node
+				if loops {
+					clash = gs
+				}
+				for m := range after {
+					if clash != nil {
+						break
+					}
+					if m.Ast == nil || m == goNode {
+						continue
+					}
+					// the node itself, and the literals created in it
+					ast.Inspect(m.Ast, func(x ast.Node) bool {
+						if x == ast.Node(lit) {
+							return false
+						}
+						if id, ok := x.(*ast.Ident); ok && info.Uses[id] == types.Object(v) {
+							common := false
+							if p.EnclosingFunc(id) == f {
+								for lk := range p.MustHeldAt(f, m) {
+									if wHeld[lk] {
+										common = true
+									}
+								}
+							}
+							if !common && clash == nil {
+								clash = id
+							}
+						}
+						return true
+					})
+				}
+				if clash != nil {
+					what := "is used at " + p.Pos(clash) + " with no join and no common mutex in between"
+					if clash == ast.Node(gs) {
+						what = "is shared by the goroutines this statement starts on successive iterations"
+					}
+					c.R.Violate("R-GUARD/captured", p.Pos(written[v]), lf.Name, construct, "the local "+v.Name()+" of "+f.Name+" is assigned inside the goroutine and "+what+": a data race (an `err :=` turned into `err =` is the usual way in)", nil)
+				} else {
+					c.R.Hold("R-GUARD/captured", p.Pos(written[v]), lf.Name, construct, "every later use in "+f.Name+" lies behind a join with the goroutine or under a common mutex", true)
+				}
+			}
+		}
+	}
+	c.R.Hold("R-GUARD/captured", "-", "", "go statements with a literal examined", fmt.Sprintf("%d go statements, %d captured variables assigned in them", nGo, n), false)
+	if nGo < 10 {
+		c.R.Undecided("R-GUARD/captured", "", "instance-floor", fmt.Sprintf("only %d go statements with a function literal found, more than 10 were counted by hand", nGo))
+	}
+}
+
+// ---------- R-EXIT/launch: the process is launched by the call that reports the launch ----------
+
+// ruleLaunchSync: exec.Cmd.Start is executed synchronously by the runner's
+// Start, not in a goroutine that Start may stop waiting for. Client.Start
+// installs its kill-on-error cleanup, the reaper and the pipe readers only
+// after runner.Start has returned without error; a launch that completes after
+// Start has already reported failure (a context that expired during fork/exec)
+// leaves a live process nobody owns.
+func ruleLaunchSync(c *Ctx) {
+	p := c.P
+	n := 0
+	for _, f := range p.Funcs {
+		if strings.HasSuffix(p.Fset.Position(f.Body.Pos()).Filename, "testing.go") {
+			continue
+		}
+		for _, call := range callsIn(f.Body) {
+			if p.CalleeName(f, call) != "os/exec.Cmd.Start" {
+				continue
+			}
+			n++
+			construct := "exec.Cmd.Start runs in the caller's goroutine"
+			inGo := false
+			for cur := f; cur != nil && cur.Lit != nil; cur = cur.Parent {
+				if gs, ok := p.Parent(cur.Lit).(*ast.CallExpr); ok {
+					if _, isGo := p.Parent(gs).(*ast.GoStmt); isGo && ast.Unparen(gs.Fun) == ast.Expr(cur.Lit) {
+						inGo = true
+					}
+				}
+			}
+			if gs, ok := p.Parent(call).(*ast.GoStmt); ok && gs.Call == call {
+				inGo = true
+			}
+			if inGo {
+				c.R.Violate("R-EXIT/launch", p.Pos(call), f.Name, construct, "the plugin process is launched from a goroutine: the function that reports the outcome of the launch can return (with an error) before or while the process is being created, and the process then runs with no reaper, no kill-on-error cleanup and no reader on its pipes", nil)
+			} else {
+				c.R.Hold("R-EXIT/launch", p.Pos(call), f.Name, construct, "called directly by "+f.Name, true)
+			}
+		}
+	}
+	if n < 1 {
+		c.R.Undecided("R-EXIT/launch", "", "instance-floor", "no call of exec.Cmd.Start found in the module")
+	}
+}
